@@ -1,3 +1,4 @@
+import Driver.Drv.Dispatcher
 import Driver.Drv.Lru
 import Driver.Drv.PushTx
 import Driver.Drv.Store
@@ -5,6 +6,7 @@ import Driver.Drv.Subs
 namespace Driver
 
 def drivers : List (String × CaseFn) := [
+  ("dispatcher", Driver.Drv.Dispatcher.runCase),
   ("lru", Driver.Drv.Lru.runCase),
   ("pushtx", Driver.Drv.PushTx.runCase),
   ("store", Driver.Drv.Store.runCase),
